@@ -383,6 +383,8 @@ func (c *Contract) tags() []string {
 var reClause = regexp.MustCompile(`^((?:loop|lit)#\d+\s+)?([a-z_]+)(\[[A-Za-z0-9,\s]*\])?(\s+"[^"]*")?(?:\s+(.*))?$`)
 
 // readContracts parses every zz_contracts_verif.go style file in dir (one package).
+var reLemma = regexp.MustCompile(`^lemma\s+([A-Za-z_][A-Za-z0-9_]*)\s*\(([^)]*)\)\s*$`)
+
 var reMacro = regexp.MustCompile(`^macro\s+([A-Za-z_][A-Za-z0-9_]*)\s*\(([^)]*)\)\s*=\s*(.*)$`)
 
 var fileMacros []*Macro
@@ -434,6 +436,16 @@ func readContractFile(path, pkg string) ([]*Contract, error) {
 			}
 			fileMacros = append(fileMacros, &Macro{Name: m[1], Params: ps, Body: e, Pkg: pkg})
 			cur = nil
+			last = nil
+			continue
+		}
+		if strings.HasPrefix(body, "lemma ") {
+			m := reLemma.FindStringSubmatch(body)
+			if m == nil {
+				return nil, fmt.Errorf("%s: cannot parse lemma header %q", where, body)
+			}
+			cur = &Contract{Key: "lemma:" + m[1], Pkg: pkg, Where: where, Attrs: map[string]string{"params": m[2]}}
+			out = append(out, cur)
 			last = nil
 			continue
 		}
@@ -492,7 +504,7 @@ func readContractFile(path, pkg string) ([]*Contract, error) {
 	for _, c := range out {
 		for _, cl := range c.Clauses {
 			switch cl.Kind {
-			case "modifies", "borrows", "moves", "flushes", "witness", "stateless":
+			case "modifies", "borrows", "moves", "flushes", "witness", "stateless", "induction":
 				for _, n := range strings.Split(cl.Text, ",") {
 					if n = strings.TrimSpace(n); n != "" {
 						cl.Names = append(cl.Names, n)
